@@ -669,8 +669,344 @@ def plan_C19(tier, rng):
     return cs, models, {"input_families": cs.tags, "configurations": cfgs}
 
 
+# ================================================================================================
+# writers: shared value sets
+
+def writer_floats(F, rng, nbin, nrand, extra_ints=True):
+    nb = (1 << F["ebits"]) - 1
+    vals = gens.float_values(F, rng, nrand=nrand, per_binade=1, binades=rng.sample(range(nb), min(nb, nbin)))
+    p = F["p"]
+    if extra_ints:
+        for v in (1, 2, 3, 7, 8, 9, 10, 15, 16, 17, 35, 36, 37, 99, 100, 255, 256, 1000, 12345, 65535, 65536, 10 ** 6, 10 ** 9,
+                  (1 << (p - 1)) - 1, (1 << p) - 1, (1 << p) - 2):
+            vals.append((gens.pyfloat_bits(F, float(v)), "small-int"))
+        for x in (0.5, 0.25, 0.1, 0.3, 1.5, 2.5, 9.5, 0.999, 9.999999, 99.95, 0.000123, 123456.789, 1e-5, 9.9e-6, 1e9, 9.99e9, 1e10,
+                  1e-7, 1.5e300 if F is F64 else 1.5e30, 4.9e-324 if F is F64 else 1.4e-45):
+            vals.append((gens.pyfloat_bits(F, x), "handpicked"))
+    return vals
+
+
+def parse_opts_from_write(o):
+    return pf(exp=o["exp"], point=o["point"], nan=o["nan"], inf=o["inf"], infinity=o["inf"])
+
+
+def add_back(events, cs2, cfgsel=None):
+    """phase 2 of the writers: parse what was written, same format, options derived from the write options"""
+    for e in events:
+        if e.get("want_back") and e["op"] == "write" and e["res"].get("k") == "ok":
+            isf = e["ty"] in ("f32", "f64")
+            o = parse_opts_from_write(e["opts"]) if isf else dict(PI_DEFAULT)
+            cs2.parse(e["ep"], e["ty"], e["fmt"], e["res"]["out"], [cfgsel or e["_cfgname"]], wo=True, opts=o, back=e["id"], tag="parse-back")
+
+
+def near_power_floats(F, r, rng, n):
+    """floats just below / at / above r^k (carry and leading-zero logic of the generic writer)"""
+    import math
+    out = []
+    kmin = int(F["emin"] * math.log(2) / math.log(r)) + 1
+    kmax = int((F["emax"] + F["p"]) * math.log(2) / math.log(r)) - 1
+    for k in rng.sample(range(kmin, kmax + 1), min(n, kmax - kmin + 1)):
+        from fractions import Fraction
+        v = Fraction(r) ** k
+        e2 = v.numerator.bit_length() - v.denominator.bit_length()
+        e = max(e2 - F["p"], F["emin"])
+        m = int(v / Fraction(2) ** e)
+        while m >= (1 << F["p"]):
+            m >>= 1
+            e += 1
+        for mm in (m - 1, m, m + 1):
+            if 0 < mm < (1 << F["p"]) and (mm >= (1 << (F["p"] - 1)) or e == F["emin"]) and e <= F["emax"]:
+                out.append((gens.float_bits(F, mm, e), "near-radix-power"))
+    return out
+
+
+# ================================================================================================
+# C06
+
+def plan_C06(tier, rng):
+    cs = Cases()
+    quick = tier == "quick"
+    cfgs = ["pow2", "radix"] if quick else ["pow2", "radix", "rf", "crf"]
+    fmts = [(r, radix_fmt(r)) for r in (2, 4, 8, 16, 32)]
+    for (r, b) in MIXED:
+        for xr in (10, b):
+            fmts.append((r, fmt_id("mixed%d_%d_x%d" % (r, b, xr))))
+    i = 0
+    for (r, f) in fmts:
+        ec = exp_char(r)
+        optsets = [wf(exp=ec), wf(exp=ec, pos=1200, neg=-1200), wf(exp=ec, pos=1, neg=-1)]
+        for F in (F64, F32):
+            for (bits, tag) in writer_floats(F, rng, 60 if quick else 2100, 40 if quick else 1500):
+                i += 1
+                ep = cs.new_ep()
+                c = [cfgs[i % len(cfgs)]]
+                cs.write(ep, F["name"], f, bits, c, wo=True, opts=optsets[0], tag=tag, want_back=True)
+                cs.write(ep, F["name"], f, bits, c, wo=True, opts=optsets[1 + i % 2], want_back=(i % 3 == 0))
+
+    def phase2(events, cs2):
+        add_back(events, cs2)
+    models = [("MC_BigNat.tla", "MC_BigNat.cfg", 4, 600)]
+    return cs, models, {"input_families": cs.tags, "configurations": cfgs, "phase2": phase2}
+
+
+# ================================================================================================
+# C07
+
+GENERIC = [r for r in range(3, 37) if r not in (4, 8, 10, 16, 32)]
+
+
+def plan_C07(tier, rng):
+    cs = Cases()
+    quick = tier == "quick"
+    cfgs = ["radix"] if quick else ["radix", "rf", "crf"]
+    i = 0
+    for r in GENERIC:
+        f = radix_fmt(r)
+        ec = exp_char(r)
+        optsets = [wf(exp=ec), wf(exp=ec, pos=800, neg=-800), wf(exp=ec, pos=1, neg=-1)]
+        for F in (F64, F32):
+            vals = writer_floats(F, rng, 14 if quick else 500, 10 if quick else 400)
+            vals += near_power_floats(F, r, rng, 6 if quick else 200)
+            for k in range(1, 12):
+                for d in (-1, 0, 1):
+                    v = r ** k + d
+                    if v < (1 << F["p"]):
+                        vals.append((gens.pyfloat_bits(F, float(v)), "radix-power-int"))
+            for (bits, tag) in vals:
+                i += 1
+                ep = cs.new_ep()
+                c = [cfgs[i % len(cfgs)]]
+                cs.write(ep, F["name"], f, bits, c, wo=True, opts=optsets[0], tag=tag, want_back=True)
+                if i % 2 == 0:
+                    cs.write(ep, F["name"], f, bits, c, wo=True, opts=optsets[1 + (i // 2) % 2], want_back=True)
+
+    def phase2(events, cs2):
+        add_back(events, cs2)
+    models = [("MC_BigNat.tla", "MC_BigNat.cfg", 4, 600)]
+    return cs, models, {"input_families": cs.tags, "configurations": cfgs, "phase2": phase2}
+
+
+# ================================================================================================
+# C08
+
+def plan_C08(tier, rng):
+    cs = Cases()
+    quick = tier == "quick"
+    cfgs = ["default", "rf"] if quick else ["default", "rf", "compact", "crf", "pow2"]
+    i = 0
+    wopts = [wf(), wf(point=44), wf(exp=69), wf(exp=112, point=44), wf(nan=B("nan"), inf=B("Infinity")), wf(trim=True),
+             wf(pos=3, neg=-3), wf(pos=400, neg=-400), wf(min=20), wf(trim=True, pos=2, neg=-2), wf(nan=B("NAN"), inf=B("i")),
+             wf(point=95), wf(exp=94, point=33)]
+    for F in (F64, F32):
+        for (bits, tag) in writer_floats(F, rng, 60 if quick else 1500, 60 if quick else 3000):
+            i += 1
+            ep = cs.new_ep()
+            c = [cfgs[i % len(cfgs)]]
+            cs.write(ep, F["name"], 0, bits, c, tag="float-default", want_back=True)
+            cs.write(ep, F["name"], 0, bits, c, wo=True, opts=wopts[i % len(wopts)], tag="float-options", want_back=True)
+            rc = radix_cfgs(16, c)
+            if rc:
+                r = rng.choice([2, 4, 8, 16, 32, 3, 7, 12, 36])
+                cs.write(ep, F["name"], radix_fmt(r), bits, rc, wo=True, opts=wf(exp=exp_char(r)), tag="float-radix", want_back=True)
+    for ty in gens.INT_TYPES:
+        for r in ([10, 2, 16, 36, 7] if quick else range(2, 37)):
+            rc = radix_cfgs(r, cfgs)
+            if not rc:
+                continue
+            ep = cs.new_ep()
+            for v in gens.boundary_ints(ty, r, rng, 3 if quick else 20):
+                i += 1
+                cs.write(ep, ty, radix_fmt(r), str(v), [rc[i % len(rc)]], wo=True, tag="int", want_back=True)
+
+    def phase2(events, cs2):
+        add_back(events, cs2)
+    models = []
+    return cs, models, {"input_families": cs.tags, "configurations": cfgs, "phase2": phase2}
+
+
+# ================================================================================================
+# C09
+
+def extreme_floats(F):
+    p = F["p"]
+    vs = [(1, F["emin"]), ((1 << (p - 1)) - 1, F["emin"]), (1 << (p - 1), F["emin"]), ((1 << p) - 1, F["emax"]), (1 << (p - 1), F["emax"]),
+          ((1 << p) - 1, -p), ((1 << p) - 1, 0), ((1 << p) - 1, -p - 20), (1 << (p - 1), -(p - 1)), ((1 << (p - 1)) + 1, -(p - 1) - 17)]
+    out = [(gens.float_bits(F, m, e), "extreme") for (m, e) in vs]
+    for x in (1.2345678901234567e-300 if F is F64 else 1.2345678e-30, 9.999999999999999e22 if F is F64 else 9.999999e22, 0.1, 1e9, 1e10, 1e-5, 9.9999e-6):
+        out.append((gens.pyfloat_bits(F, x), "extreme"))
+    sign = 1 << (F["bits"] - 1)
+    out += [("%x" % (int(b, 16) | sign), t) for (b, t) in out[:6]]
+    nb = (1 << F["ebits"]) - 1
+    out += [("%x" % (nb << F["mbits"]), "inf"), ("%x" % ((nb << F["mbits"]) | 1), "nan"), ("0", "zero"), ("%x" % sign, "zero")]
+    return out
+
+
+def plan_C09(tier, rng):
+    cs = Cases()
+    quick = tier == "quick"
+    cfgs = ["default", "rf"] if quick else ["default", "rf", "compact", "crf"]
+    grid_max = [0, 1, 2, 5, 17, 40, 200] if quick else [0, 1, 2, 3, 5, 9, 16, 17, 18, 40, 64, 200, 500]
+    grid_min = [0, 1, 10, 30, 300] if quick else [0, 1, 5, 17, 18, 30, 64, 300, 600]
+    grid_neg = [-5, -1, -20, -324, -400] if quick else [-5, -1, -2, -10, -20, -100, -300, -324, -330, -400, -1100]
+    grid_pos = [9, 1, 20, 309, 400] if quick else [9, 1, 2, 10, 20, 100, 300, 308, 309, 400, 1100]
+    optsets = []
+    for mx in grid_max:
+        for mn in grid_min:
+            if mx and mn and mn > mx:
+                continue
+            for ng in grid_neg:
+                for ps in grid_pos:
+                    optsets.append((mx, mn, ng, ps))
+    rng.shuffle(optsets)
+    if quick:
+        optsets = optsets[:220]
+    i = 0
+    for (mx, mn, ng, ps) in optsets:
+        i += 1
+        o = wf(max=mx, min=mn, neg=ng, pos=ps, round="truncate" if i % 5 == 0 else "round", trim=(i % 7 == 0))
+        for F in (F64, F32):
+            ex = extreme_floats(F)
+            for (bits, tag) in (rng.sample(ex, 9) if quick else ex):
+                ep = cs.new_ep()
+                c = [cfgs[i % len(cfgs)]]
+                place = "start" if i % 2 else "end"
+                cs.write(ep, F["name"], 0, bits, c, wo=True, opts=o, buflen={"sym": "bsc", "d": 0}, place=place, tag="bound", want_len=True)
+                cs.write(ep, F["name"], 0, bits, c, wo=True, opts=o, buflen={"sym": "bsc", "d": -1}, place=place)
+                if i % 4 == 0:
+                    cs.write(ep, F["name"], 0, bits, c, wo=True, opts=o, api="facade", tag="facade")
+    # radix writers and integers with their documented bounds
+    for r in ([2, 3, 8, 16, 36] if quick else range(2, 37)):
+        rc = radix_cfgs(r, cfgs)
+        if not rc or r == 10:
+            continue
+        f = radix_fmt(r)
+        ec = exp_char(r)
+        for F in (F64, F32):
+            for (bits, tag) in extreme_floats(F):
+                i += 1
+                ep = cs.new_ep()
+                for o in (wf(exp=ec), wf(exp=ec, pos=1200, neg=-1200), wf(exp=ec, max=3), wf(exp=ec, min=70)):
+                    cs.write(ep, F["name"], f, bits, [rc[i % len(rc)]], wo=True, opts=o, buflen={"sym": "bsc", "d": 0}, tag="radix-bound", want_len=True)
+        for ty in gens.INT_TYPES:
+            lo, hi = gens.int_range(ty)
+            ep = cs.new_ep()
+            for v in (lo, hi, 0, lo + 1):
+                i += 1
+                cs.write(ep, ty, f, str(v), [rc[i % len(rc)]], wo=True, buflen={"sym": "fs", "d": 0}, tag="int-bound", want_len=True)
+    for ty in gens.INT_TYPES:
+        lo, hi = gens.int_range(ty)
+        ep = cs.new_ep()
+        for v in (lo, hi, 0, -1 if lo < 0 else 1):
+            for c in cfgs:
+                cs.write(ep, ty, 0, str(v), [c], buflen={"sym": "fsd", "d": 0}, tag="int-bound", want_len=True)
+                cs.write(ep, ty, 0, str(v), [c], buflen={"sym": "fsd", "d": -1})
+    for F in (F64, F32):
+        for (bits, tag) in extreme_floats(F):
+            ep = cs.new_ep()
+            for c in cfgs:
+                cs.write(ep, F["name"], 0, bits, [c], buflen={"sym": "fsd", "d": 0}, tag="default-bound", want_len=True)
+                cs.write(ep, F["name"], 0, bits, [c], buflen={"sym": "fsd", "d": -1})
+
+    def phase2(events, cs2):
+        # after seeing the output length: buffers of exactly that length, one less, and empty, on guard pages
+        n = 0
+        for e in events:
+            if e.get("want_len") and e["res"].get("k") == "ok":
+                n += 1
+                if n % 3:
+                    continue
+                ln = len(e["res"]["out"])
+                for bl in (ln, ln - 1, 0):
+                    if bl >= 0:
+                        cs2.write(e["ep"], e["ty"], e["fmt"], e["val"], [e["_cfgname"]], wo=e["wo"], opts=e["opts"], buflen=bl,
+                                  place="end", tag="short-buffer")
+    models = []
+    return cs, models, {"input_families": cs.tags, "configurations": cfgs, "phase2": phase2}
+
+
+# ================================================================================================
+# C14
+
+def plan_C14(tier, rng):
+    cs = Cases()
+    quick = tier == "quick"
+    cfgs = ["default", "compact", "rf"] if quick else ["default", "compact", "rf", "crf"]
+    i = 0
+
+    def digit_floats(F):
+        out = []
+        # short digit strings incl. all-nines and ...5 / ...50..01 ties at every length
+        import itertools
+        pats = []
+        for n in range(1, 18 if F is F64 else 9):
+            pats.append("9" * n)
+            pats.append("1" + "0" * (n - 1) if n > 1 else "1")
+            pats.append("".join(rng.choice("0123456789") for _ in range(n)).lstrip("0") or "5")
+            pats.append(("".join(rng.choice("123456789") for _ in range(max(0, n - 1))) + "5"))
+            pats.append(("".join(rng.choice("123456789") for _ in range(max(0, n - 2))) + "45"))
+            pats.append(("".join(rng.choice("123456789") for _ in range(max(0, n - 2))) + "95"))
+        exps = [-320, -310, -20, -7, -6, -5, -4, -1, 0, 1, 5, 8, 9, 10, 11, 20, 300] if F is F64 else [-44, -38, -7, -6, -5, -4, -1, 0, 1, 8, 9, 10, 11, 30]
+        for pt in pats:
+            for e in rng.sample(exps, 3 if quick else len(exps)):
+                try:
+                    x = float("%s.%se%d" % (pt[0], pt[1:] or "0", e))
+                    out.append((gens.pyfloat_bits(F, x), "digits"))
+                except OverflowError:
+                    pass
+        out += writer_floats(F, rng, 12 if quick else 300, 20 if quick else 600)
+        return out
+
+    def optgrid():
+        g = []
+        for mx in ([1, 2, 3, 5, 8, 16, 17, 20, 64] if quick else list(range(1, 22)) + [32, 64, 200]):
+            g.append(dict(max=mx))
+            g.append(dict(max=mx, round="truncate"))
+        for mn in ([1, 2, 5, 17, 18, 25, 64] if quick else [1, 2, 3, 5, 9, 16, 17, 18, 19, 25, 64, 300]):
+            g.append(dict(min=mn))
+            g.append(dict(min=mn, trim=True))
+        g += [dict(max=5, min=3), dict(max=4, min=4), dict(max=3, min=3, round="truncate"), dict(max=2, min=1, trim=True)]
+        return g
+
+    brk = [dict(), dict(pos=3, neg=-3), dict(pos=1, neg=-1), dict(pos=20, neg=-20), dict(pos=400, neg=-400), dict(pos=15, neg=-2)]
+    grid = optgrid()
+    for F in (F64, F32):
+        for (bits, tag) in digit_floats(F):
+            i += 1
+            ep = cs.new_ep()
+            c = [cfgs[i % len(cfgs)]]
+            b = brk[i % len(brk)]
+            base = wf(**b)
+            cs.write(ep, F["name"], 0, bits, c, wo=True, opts=base, tag=tag)                       # default digits twin
+            for g in rng.sample(grid, 3 if quick else 8):
+                o = wf(**dict(b, **g))
+                cs.write(ep, F["name"], 0, bits, c, wo=True, opts=o)
+                if o.get("trim"):
+                    cs.write(ep, F["name"], 0, bits, c, wo=True, opts=dict(o, trim=False))
+            cs.write(ep, F["name"], 0, bits, c, wo=True, opts=wf(**dict(b, trim=True)))
+            if i % 5 == 0:
+                cs.write(ep, F["name"], 0, bits, c, wo=True, opts=wf(**dict(b, exp=69, point=44)))
+    # other radices: counts, padding, notation flags, trim, punctuation
+    for r in ([2, 16, 3, 36] if quick else [2, 4, 8, 16, 32, 3, 7, 12, 36]):
+        rc = radix_cfgs(r, cfgs)
+        if not rc:
+            continue
+        ec = exp_char(r)
+        for F in (F64, F32):
+            for (bits, tag) in writer_floats(F, rng, 8 if quick else 150, 8 if quick else 150):
+                i += 1
+                ep = cs.new_ep()
+                c = [rc[i % len(rc)]]
+                cs.write(ep, F["name"], radix_fmt(r), bits, c, wo=True, opts=wf(exp=ec), tag="radix")
+                for g in rng.sample(grid, 2):
+                    cs.write(ep, F["name"], radix_fmt(r), bits, c, wo=True, opts=wf(**dict(g, exp=ec)))
+                cs.write(ep, F["name"], radix_fmt(r), bits, c, wo=True, opts=wf(exp=ec, trim=True))
+    models = []
+    return cs, models, {"input_families": cs.tags, "configurations": cfgs}
+
+
 PLANS = {"C01": plan_C01, "C02": plan_C02, "C03": plan_C03, "C04": plan_C04, "C05": plan_C05,
-         "C10": plan_C10, "C11": plan_C11, "C16": plan_C16, "C17": plan_C17, "C19": plan_C19}
+         "C06": plan_C06, "C07": plan_C07, "C08": plan_C08, "C09": plan_C09,
+         "C10": plan_C10, "C11": plan_C11, "C14": plan_C14, "C16": plan_C16, "C17": plan_C17, "C19": plan_C19}
 
 
 ASSUME = {
